@@ -25,6 +25,7 @@ RULE = (
     "latitude lies strictly inside the edge, a pole inside/at a corner, or a wrap-around longitude interval; distinct = face geometry x start corner"
 )
 ASSUMPTIONS = [
+    "faces with a corner inside the library's pole-snapping cap (1 - |z| < 1e-8: closer than 0.9 km to a pole without being on it) are not generated: the library reports such corners at longitude 0 by documented tolerance",
     "faces are convex, counter-clockwise, edges < 180 degrees, longitude extent < 180 degrees unless a pole is enclosed; a face is generated only if every decision "
     "(apex inside an edge, pole inside the face) has a margin of at least 1e-7 from its boundary",
     "oracle: per edge the extreme latitude is asin(+-sqrt(1-n_z^2)) iff the apex of the great circle lies inside the edge, else the endpoint value; enclosed pole => "
@@ -62,17 +63,27 @@ def _oracle(P):
     tags = set()
     lat_cands_max, lat_cands_min = [], []
     pole_corner = [abs(abs(p[2]) - 1.0) < 1e-15 for p in P]
+    # corners inside the library's pole-snapping cap (1 - |z| < 1e-8, i.e. within 0.9 km of a pole) but not on the pole: their
+    # longitude is reported as 0 by documented tolerance (C04's statement names it); such faces are not judged
+    if any((1.0 - abs(p[2]) < 1.5e-8) and not pc for p, pc in zip(P, pole_corner)):
+        return None
     # convexity / orientation
     for i in range(k):
         a, b, c = P[i], P[(i + 1) % k], P[(i + 2) % k]
         if np.dot(np.cross(a, b), c) < 1e-9:
             return None
     # pole enclosure
-    north_in = all(np.dot(np.cross(P[i], P[(i + 1) % k]), z) > MARG for i in range(k))
-    south_in = all(np.dot(np.cross(P[i], P[(i + 1) % k]), -z) > MARG for i in range(k))
+    # margins are ANGLES (unit normals): the pole lies more than MARG rad inside every edge's great circle -- scale-free, so that
+    # kilometre-sized polar caps are judged too
+    def _nhat(a, b):
+        n = np.cross(a, b)
+        return n / max(np.linalg.norm(n), 1e-300)
+
+    north_in = all(np.dot(_nhat(P[i], P[(i + 1) % k]), z) > MARG for i in range(k))
+    south_in = all(np.dot(_nhat(P[i], P[(i + 1) % k]), -z) > MARG for i in range(k))
     for i in range(k):
         a, b = P[i], P[(i + 1) % k]
-        n = np.cross(a, b)
+        n = _nhat(a, b)
         s = float(np.dot(n, z))
         if abs(s) < MARG and not (pole_corner[i] or pole_corner[(i + 1) % k]):
             # the edge's great circle passes (nearly) through the poles: inadmissible only if a pole lies on the arc itself
@@ -140,6 +151,13 @@ def _faces(tier):
     for n in (3, 4, 6):
         for ci in (2, 4, 6, 8, 9, 11):
             yield {"fam": "tiny", "n": n, "c": ci}, _ngon(n, 0.003, CENTRES[ci], 0.4)
+    # small pole-enclosing faces: corners 1.5 .. 110 km from the pole they enclose (centred on it and off-centre); closer than 0.9 km
+    # a corner is inside the library's documented pole-snapping cap (1 - |z| < 1e-8), see _oracle
+    for sgn in (1.0, -1.0):
+        for rad in (0.02, 0.05, 0.115, 1.0):
+            for n in (3, 4, 6):
+                yield {"fam": "polar-small", "sgn": sgn, "r": rad, "n": n, "off": False}, _ngon(n, rad, (0.0, sgn * 90.0), 0.3)
+                yield {"fam": "polar-small", "sgn": sgn, "r": rad, "n": n, "off": True}, _ngon(n, rad, (40.0, sgn * (90.0 - 0.3 * rad)), 0.3)
     # lattice faces: corners on a non-aligned patch (distinct latitudes/longitudes)
     base = [(3.0 * i + 0.37 * j + 0.11 * i * j, 2.5 * j + 0.41 * i + 0.07 * j * j) for i in range(4) for j in range(4)]
     places = [(20.0, 30.0), (-178.0, -40.0)] if tier == "quick" else [(20.0, 30.0), (-178.0, -40.0), (-4.0, 60.0), (175.0, 5.0), (100.0, -75.0), (-60.0, 80.0)]
